@@ -613,6 +613,28 @@ func c20Family(c *Ctx, r *Rng) []c20Spec {
 		add(c20Spec{'d', nil})
 		add(c20Spec{'d', []uint64{0}})
 		add(c20Spec{'v', []uint64{0}})
+		// non-empty sets whose identity is the empty set's (0): 23 + 31*(sum of bit patterns) = 0 mod 2^64
+		var inv31 uint64 = 1
+		for k := 0; k < 6; k++ { // Newton iteration for the inverse of 31 modulo 2^64
+			inv31 *= 2 - 31*inv31
+		}
+		neg23 := ^uint64(22) // -23 modulo 2^64
+		target := neg23 * inv31
+		for k := 0; k < 3; k++ {
+			a := r.U64() >> uint(r.Range(1, 40))
+			z := c20Spec{'d', []uint64{a, target - a}}
+			if z.ident() == 0 {
+				add(z)
+				c.Cov.Hit("family.identity-of-the-empty-set")
+			}
+			x := math.Float64bits(float64(r.Range(1, 1000)) / 8)
+			y := target - x
+			if (y>>52)&0x7ff != 0x7ff {
+				if zv := (c20Spec{'v', []uint64{x, y}}); zv.ident() == 0 {
+					add(zv)
+				}
+			}
+		}
 	case 6: // identical sets (legitimate sharing) mixed with one intruder
 		c.Cov.Hit("family.identical-plus-intruder")
 		base := c20BaseBits(r, kind, r.Range(1, 8))
